@@ -152,6 +152,8 @@ impl Type {
     /// Returns type of element returned when indexing into
     pub fn index_result(&self) -> Option<Type> {
         match self {
+            // an expression of type `!` never yields a value, so neither does indexing into it
+            Type::Never => Some(Type::Never),
             Type::Array(element) => Some(element.as_ref().clone()),
             Type::Multi(multi) => {
                 let mut iter = multi.iter();
@@ -202,6 +204,7 @@ impl Type {
     /// Returns type of element of array
     pub fn element_type(&self) -> Option<Type> {
         match self {
+            Type::Never => Some(Type::Never),
             Type::Array(element) => Some(element.as_ref().clone()),
             Type::Multi(multi) => {
                 let mut iter = multi.iter();
